@@ -67,6 +67,18 @@ def c02_unser(b):
     return c02.unser_json(b)
 
 
+def returns_root(u):
+    return u[0] in ("assign", "update", "compound", "del") or (u[0] == "pipe" and returns_root(u[1]) and returns_root(u[2]))
+
+
+def root_update(g):
+    """an update whose result is the document itself (`P[] | (.k = v)` hands back the items instead)"""
+    u = g.update()
+    while not returns_root(u):
+        u = g.update()
+    return u
+
+
 def compound_add(e):
     if isinstance(e, tuple):
         if len(e) > 1 and e[0] == "compound" and e[1] == "add":
@@ -106,10 +118,10 @@ def run(chk):
     for _ in range(n):
         d = evalgen.gen_doc(chk.rng)
         g.set_doc(d)
-        u = g.update()
+        u = root_update(g)
         k = chk.rng.random()
         if k < 0.4:
-            u = ("pipe", u, g.update())
+            u = ("pipe", u, root_update(g))
         elif k < 0.6:
             # copy a container elsewhere, then delete from the original: the copy must keep its own keys
             seqs = [p for p in evalgen.doc_paths(d) if isinstance(evalgen._get(d, p), list) and len(evalgen._get(d, p)) >= 2]
